@@ -20,7 +20,7 @@ from .common import (
 
 PID = "C06"
 LEVEL = "fault_enumeration"
-BUDGET = {"quick": 40000, "thorough": 600000}
+BUDGET = {"quick": 150000, "thorough": 2500000}
 RULE = (
     "each run samples a scenario (tool of C01 or aggregation of C02, logging source flavours, callables of "
     "5 flavours) and enumerates every single-fault position k = 1..N over the reference run's merged use "
